@@ -115,6 +115,7 @@ func (p *c15WrapPool) close() {
 
 func (p *c15WrapPool) run(s uint32, g, per int, pathB bool) (*c15WrapTrial, error) {
 	var cli *mqtt.BaseClient
+	var inbound func([]byte)
 	ctx := context.Background()
 	qos := mqtt.QoS0
 	if pathB {
@@ -125,6 +126,9 @@ func (p *c15WrapPool) run(s uint32, g, per int, pathB bool) (*c15WrapTrial, erro
 		w.sink = true
 		defer w.close()
 		cli = w.s.cli
+		if s%2 == 1 {
+			inbound = w.s.conn.send
+		}
 		c, cancel := context.WithCancel(ctx)
 		cancel() // Publish takes the identifier, registers, writes, and returns at once
 		ctx = c
@@ -134,6 +138,11 @@ func (p *c15WrapPool) run(s uint32, g, per int, pathB bool) (*c15WrapTrial, erro
 	}
 	cli.VerifSetIDLast(s)
 	j := &c15WrapJob{cli: cli, ctx: ctx, qos: qos, g: g, per: per, res: make([][]uint16, g)}
+	if pathB && inbound != nil {
+		// inbound packets race with the workers: identifiers at the top of the range and around the counter
+		inbound(c15In{Q: 1, ID: 0xFFFF - uint16(g)}.bytes())
+		inbound(c15In{Q: 2, ID: uint16(s) + uint16(g)}.bytes())
+	}
 	p.cur.Store(j)
 	deadline := time.Now().Add(c15WaitDur())
 	for n := 0; atomic.LoadInt32(&j.done) < int32(g); n++ {
@@ -775,6 +784,7 @@ func c15NewFaultWorld(faultTag string) (*c15World, chan struct{}, chan struct{},
 		return nil, nil, nil, err
 	}
 	w.s = s
+	w.handleInbound()
 	return w, held, gate, nil
 }
 
@@ -783,7 +793,7 @@ func c15NewFaultWorld(faultTag string) (*c15World, chan struct{}, chan struct{},
 // is followed by a wait until the counter has moved) and queue up behind the write lock; the gate
 // opens, B's write fails, the C's go out; then the requests D one after the other, optionally B's
 // retry handle on the same client; finally everything is acknowledged.
-func c15RunFault(o *c15Out, s uint32, prelude []c15Req, faulty c15Req, conc, after []c15Req, runHandle bool) error {
+func c15RunFault(o *c15Out, s uint32, prelude []c15Req, faulty c15Req, conc, after []c15Req, runHandle bool, inbound []c15In) error {
 	if c15GiveUp() || atomic.LoadInt32(&c15FaultOff) != 0 {
 		o.skipped++
 		return nil
@@ -916,6 +926,18 @@ func c15RunFault(o *c15Out, s uint32, prelude []c15Req, faulty c15Req, conc, aft
 	}
 	if stuck == "" {
 		ended(faultIdx, "write rejected")
+		// inbound packets once the write lock is free again (the reader needs it for its answers)
+		for _, in := range inbound {
+			hin = append(hin, in.coq("HIn"))
+			if !w.inbound(in) {
+				stuck = "the client did not get past " + in.desc()
+				break
+			}
+			desc = append(desc, in.desc())
+			o.kinds["inbound"]++
+		}
+	}
+	if stuck == "" {
 		for _, rq := range after {
 			if !seq(rq, "") {
 				break
@@ -1002,11 +1024,16 @@ func c15Fault(o *c15Out, r *rand.Rand, tier string) error {
 	// wrap-around counters
 	for _, s := range []uint32{100, 0xFFFD, 0xFFFE, 0xFFFF, 0xFFFFFFFD, 0xFFFFFFFF} {
 		for _, f := range []c15Req{sub, unsub, p1, p2} {
-			if err := c15RunFault(o, s, nil, f, []c15Req{sub}, []c15Req{unsub, p1}, false); err != nil {
+			if err := c15RunFault(o, s, nil, f, []c15Req{sub}, []c15Req{unsub, p1}, false, nil); err != nil {
 				return err
 			}
 		}
-		if err := c15RunFault(o, s, []c15Req{p1}, sub, []c15Req{p1, unsub}, []c15Req{p2, sub}, true); err != nil {
+		if err := c15RunFault(o, s, []c15Req{p1}, sub, []c15Req{p1, unsub}, []c15Req{p2, sub}, true, nil); err != nil {
+			return err
+		}
+		// with inbound packets carrying the identifiers of the requests just sent
+		if err := c15RunFault(o, s, []c15Req{p1, sub}, unsub, []c15Req{p1, sub}, []c15Req{p2, sub, p1}, false,
+			[]c15In{{Q: 1, ID: c15Nth(s, 1)}, {Q: 2, ID: c15Nth(s, 4)}, {Q: 3, ID: 0xFFFF}}); err != nil {
 			return err
 		}
 	}
@@ -1027,7 +1054,18 @@ func c15Fault(o *c15Out, r *rand.Rand, tier string) error {
 		for !f.tracked() {
 			f = auto()
 		}
-		if err := c15RunFault(o, c15PickStart(r), list(0, 3), f, list(0, 3), list(0, 4), r.Intn(2) == 0); err != nil {
+		st := c15PickStart(r)
+		var ins []c15In
+		if r.Intn(2) == 0 {
+			for k := r.Intn(4); k > 0; k-- {
+				in := c15In{Q: byte(r.Intn(4)), ID: c15Nth(st, 1+r.Intn(6))}
+				if r.Intn(3) == 0 {
+					in.ID = uint16(0xFFFF - r.Intn(3))
+				}
+				ins = append(ins, in)
+			}
+		}
+		if err := c15RunFault(o, st, list(0, 3), f, list(0, 3), list(0, 4), r.Intn(2) == 0, ins); err != nil {
 			return err
 		}
 	}
